@@ -29,8 +29,8 @@ def _root_field(e):
     return None
 
 
-def rule_fidelity(ctx, p, cfg, rid, prefix="config::runtime::", floor=30):
-    with ctx.rule(rid, "accessors, setters and build() are faithful", cfg) as r:
+def rule_fidelity(ctx, p, cfg, rid, prefix="config::runtime::", floor=30, with_build=True):
+    with ctx.rule(rid, "accessors, setters and build() are faithful" if with_build else "builder setters and accessors are faithful", cfg) as r:
         n = 0
         for path, f in sorted(p.fns.items()):
             if not path.startswith(prefix) or f.kind != "AssocFn" or f.d.get("impl_trait"):
@@ -55,7 +55,7 @@ def rule_fidelity(ctx, p, cfg, rid, prefix="config::runtime::", floor=30):
                 got = [_root_field(deep_strip(x)) for x in ret[1]] if ret[0] == "tuple" else None
                 r.require(got == fields, "unpack:%s" % short, fn=f, detail="unpacks %s" % got,
                           fail_detail="%s returns %s, the struct's fields are %s" % (short, show(ret, 4), fields))
-            elif name == "build" and ret[0] == "agg" and ret[1] in p.adts and ret[1].startswith(prefix):
+            elif with_build and name == "build" and ret[0] == "agg" and ret[1] in p.adts and ret[1].startswith(prefix):
                 n += 1
                 bad = []
                 for fname, v in ret[3]:
@@ -82,7 +82,7 @@ def rule_fidelity(ctx, p, cfg, rid, prefix="config::runtime::", floor=30):
                     if fl and (s["lhs"]["l"] == 1):
                         touched.add(fl[0])
                         v = deep_strip(f._rvalue(s["rv"], frozenset(), 20, b))
-                        if fl[0] == tgt and any(x == ("param", 2) for x in walk(v)) and _pure(v) and all(f.dominates(b, rb) for rb in f.return_blocks()):
+                        if fl[0] == tgt and any(x == ("param", 2) for x in walk(v)) and _pure(v) and not any(x[0] == "phi" for x in walk(v)) and all(f.dominates(b, rb) for rb in f.return_blocks()):
                             okw = True
                 for c in f.calls():
                     if c.callee in MUTATORS:
